@@ -4,6 +4,8 @@ The extracted model (Model/OrdIO.v: ord_write, ord_parse, tokenize) is the indep
 documented format.  Three kinds of cases:
   c01.file       payload = instance;       write / parse_file / parse_str / write again, model on the same data
   c01.tokenize   payload = text;           re.findall(order_pattern) against the model's state machine
+  c01.history    payload = (instance steps); one object: write, then change multiplicities / append_order(_list) /
+                 re-parse the last file, write again after every step: each file = model-write of the current fields
   c01.parse_text payload = (autocorrect header_only mode data_type text); parse_str / parse_file with flags on
                  clean and dirty content against ord_parse (prepares C10 / C16)
 """
@@ -21,7 +23,10 @@ RULE = ("exhaustive: every weak order (ordered partition) of every non-empty sub
         "(thorough), as a one-ballot instance x the four data types, and every ordered pair of distinct such orders "
         "(m <= 3) with equal multiplicities (stability of the sort); random: up to 12 alternatives, ids up to 10^18, "
         "multiplicities from a small pool (ties in the sort key), Unicode names / metadata incl. '#', ':', '{', ',', "
-        "'}', empty names and fields; tokenizer on well-formed and malformed ballot strings; parse with "
+        "'}', colons with and without blanks ('closed 18:00', 'key: value', 'a :b'), header look-alikes, empty names and "
+        "fields; stability blocks (equal multiplicity and equal number of classes in every insertion order); histories "
+        "on one object (set multiplicities / append_order / append_order_list / re-parse, write after every step); "
+        "tokenizer on well-formed and malformed ballot strings; parse with "
         "autocorrect / header_only on clean and dirty content. non-trivial = a file case with >= 2 ballots and at "
         "least one class of size != 1")
 EXHAUSTIVE = {"quick": "all tie arrangements over subsets of {1..3}: 25 orders x 4 types, all 600 ordered pairs",
@@ -114,9 +119,16 @@ SPECIAL += ["\U0001F600", " ", " ", " ", "\t", "\x1f", "\u00a0", "\u0663", "\ufe
 
 
 
+TRICKY = ["closed 18:00", "https://x.y/z", "a :b", "3:1", "key: value", ":", "::", ": x", "x :", "a:", "# x", "#",
+          "# TITLE: t", "# ALTERNATIVE NAME 1: z", "# NUMBER VOTERS: 9", "{1,2}", "{", "}", "{}", "a, b", ",", "1, 2",
+          "1: 1, 2", "2: {1, 2}", "x__1", "X__1", "  inner  spaces ".strip(), "tab\there", "0", "007", "-1"]
+
+
 def rand_text(rng, maxlen=12, p_empty=0.15):
     if rng.random() < p_empty:
         return ""
+    if rng.random() < 0.25:
+        return rng.choice(TRICKY)
     n = rng.randint(1, maxlen)
     s = "".join(rng.choice(SPECIAL) for _ in range(n))
     s = s.strip()
@@ -194,6 +206,43 @@ def rand_instance(rng):
     if rng.random() < 0.2:   # the three counts are copied, they need not agree with the ballots
         counts = (rng.randint(0, 10 ** 6), rng.randint(0, 10 ** 20), rng.randint(0, 50))
     return simple_instance(om, dt, names=names, fields=fields, counts=counts)
+
+
+def rand_history(rng):
+    """instance + steps: [0, [[order, mult], ...]] set multiplicities (ranking changes); [1, order] append_order_list;
+    [2, ids] append_order (strict); [3] replace the object by parse_file of the last written file"""
+    m = rng.randint(2, 5)
+    ids = rng.sample(range(1, 12), m)
+    orders = []
+    for _ in range(rng.randint(1, 4)):
+        o = rand_order(rng, ids)
+        if o not in orders:
+            orders.append(o)
+    base = simple_instance([(o, rng.choice([1, 2, 2, 5])) for o in orders], rng.choice(TYPES),
+                           fields={"title": rand_text(rng, 8), "description": rand_text(rng, 8)})
+    steps = []
+    cur = list(orders)
+    for _ in range(rng.randint(2, 5)):
+        r = rng.random()
+        if r < 0.35:
+            steps.append([0, [[o, rng.choice([1, 2, 3, 9])] for o in cur]])
+        elif r < 0.6:
+            o = rand_order(rng, ids + [rng.randint(12, 15)])
+            steps.append([1, o])
+            if o not in cur:
+                cur.append(o)
+        elif r < 0.8:
+            a = list(ids)
+            rng.shuffle(a)
+            a = a[: rng.randint(1, len(a))]
+            steps.append([2, a])
+            o = [[x] for x in a]
+            if o not in cur:
+                cur.append(o)
+        else:
+            steps.append([3])
+            # parsing lists the ballots in file order; the generator does not need to track that
+    return [base, steps]
 
 
 TOK_ALPHA = list("0123456789") + list(",,,,{{{}}}") + list(":x #-")
@@ -295,6 +344,31 @@ def generate(tier, seed):
             if o1 != o2 and o2 != o3 and o1 != o3:
                 out.append(case("c01.file", simple_instance([(o1, rng.choice([1, 2])), (o2, 2), (o3, rng.choice([2, 3]))],
                                                             rng.choice(TYPES)), exh=3))
+    # (1b) stability of the sort: distinct ballots with EQUAL multiplicity and EQUAL number of classes, every
+    # insertion order
+    import itertools
+    stab_sets = [[[[1], [2]], [[2], [1]], [[1, 2], [3]]],
+                 [[[1, 2]], [[3]], [[2, 3, 1]]],
+                 [[[1], [2], [3]], [[3], [2], [1]], [[2], [1, 3], [4]], [[1, 2], [3], [4]]],
+                 [[[5]], [[6]], [[5, 6]], [[7, 5]]]]
+    for ss in (stab_sets[:3] if quick else stab_sets):
+        for k in range(2, len(ss) + 1):
+            for sub in itertools.combinations(ss, k):
+                for perm in itertools.permutations(sub):
+                    out.append(case("c01.file", simple_instance([(o, 3) for o in perm], TYPES[k % 4]), stab=1))
+                    # plus one heavier and one lighter ballot around the tied block
+                    out.append(case("c01.file", simple_instance([([[9]], 1)] + [(o, 3) for o in perm] + [([[8], [9]], 7)],
+                                                                TYPES[(k + 1) % 4]), stab=1))
+    # (1c) separators inside metadata values and names: every tricky text in every field / as a name
+    for t in TRICKY:
+        for f in FIELDS:
+            if f != "data_type":
+                out.append(case("c01.file", simple_instance([([[1], [2]], 2), ([[2, 1]], 1)], "toc", fields={f: t}), tricky=1))
+        out.append(case("c01.file", simple_instance([([[1], [2]], 2), ([[2, 1]], 1)], "toc", names=[(1, t), (2, "b")]), tricky=1))
+        out.append(case("c01.file", simple_instance([([[1], [2]], 2), ([[2, 1]], 1)], "toc", names=[(2, "a"), (1, t)]), tricky=1))
+    # (1d) histories on one object
+    for _ in range(250 if quick else 4000):
+        out.append(case("c01.history", rand_history(rng), hist=1))
     # (2) random instances
     for _ in range(700 if quick else 12000):
         out.append(case("c01.file", rand_instance(rng), rnd=1))
@@ -381,6 +455,39 @@ def impl_file(c):
         shutil.rmtree(d, ignore_errors=True)
 
 
+def impl_history(c):
+    from preflibtools.instances import OrdinalInstance
+    base_pl, steps = c["payload"]
+    d = _tmpdir()
+    try:
+        inst = build_instance(base_pl)
+        path = os.path.join(d, "h." + U(base_pl[0][3]))
+        texts, dumps = [], []
+        inst.write(path)
+        texts.append(T(_read(path)))
+        dumps.append(dump_instance(inst))
+        for st in steps:
+            if st[0] == 0:
+                for o, mu in st[1]:
+                    t = tuple(tuple(cl) for cl in o)
+                    if t in inst.multiplicity:
+                        inst.multiplicity[t] = mu
+                inst.num_voters = sum(inst.multiplicity.values())
+            elif st[0] == 1:
+                inst.append_order_list([tuple(tuple(cl) for cl in st[1])])
+            elif st[0] == 2:
+                inst.append_order(tuple(st[1]))
+            else:
+                inst = OrdinalInstance()
+                inst.parse_file(path)
+            inst.write(path)
+            texts.append(T(_read(path)))
+            dumps.append(dump_instance(inst))
+        return {"texts": texts, "dumps": dumps, "base": "h." + U(base_pl[0][3])}
+    finally:
+        shutil.rmtree(d, ignore_errors=True)
+
+
 def _flag_text(c):
     pl = c["payload"]
     if len(pl) == 6:      # clean content: written by the implementation from an instance
@@ -422,6 +529,8 @@ def impl(c):
         return {"tokens": [T(t) for t in toks], "via_parse": guarded(_order_via_parse, s)}
     if op == "c01.parse_text":
         return impl_parse_text(c)
+    if op == "c01.history":
+        return impl_history(c)
     return {"crash": "unknown op " + op}
 
 
@@ -453,6 +562,15 @@ def oracle_requests(c, r):
                 ("c01.with_default_file_name", [T(base), pl])]
     if op == "c01.tokenize":
         return [("c01.tokenize", pl), ("c01.order_of_str", pl)]
+    if op == "c01.history":
+        if not isinstance(r, dict) or "texts" not in r:
+            return [("c01.tokenize", [])]
+        reqs = []
+        for t, dmp in zip(r["texts"], r["dumps"]):
+            reqs.append(("c01.write", dmp))
+            reqs.append(("c01.parse_text", [0, 0, 0, dmp[0][3], t, T(r["base"])]))
+            reqs.append(("c01.roundtrip", dmp))
+        return reqs
     if op == "c01.parse_text":
         if not isinstance(r, dict) or "text" not in r:
             return [("c01.tokenize", [])]
@@ -526,6 +644,24 @@ def judge(c, r, mres):
         elif v[0] == 1 and mo != v:
             return "ballot text %r: parser raises %r, model gives %r" % (U(c["payload"]), v[1:], mo)
         return None
+    if op == "c01.history":
+        steps = c["payload"][1]
+        n = len(r["texts"])
+        if len(mres) != 3 * n:
+            return {"kind": "broken-correspondence", "reason": "history: implementation side returned %r" % (r,)}
+        for k in range(n):
+            mw, mp, rt = mres[3 * k: 3 * k + 3]
+            what = "initial write" if k == 0 else "write after step %d %r" % (k, steps[k - 1][:1])
+            if rt[0] != 1:
+                return {"kind": "broken-correspondence", "reason": "history state outside wf_ord at " + what}
+            if mw != r["texts"][k]:
+                return "history, %s: file differs from the documented format for the current fields: %r vs %r" % (
+                    what, U(r["texts"][k]), U(mw))
+            if mp[0] != 0 or canon_noorder(mp[1]) != canon_noorder(r["dumps"][k]):
+                return "history, %s: independent reader sees %r, instance is %r" % (what, mp, r["dumps"][k])
+            if k > 0 and steps[k - 1][0] == 3 and r["texts"][k] != r["texts"][k - 1]:
+                return "history, parse -> write does not reproduce the file at step %d" % k
+        return None
     if op == "c01.parse_text":
         m = mres[0]
         res = r["res"]
@@ -569,6 +705,8 @@ def stats(c, r, m):
         return lab
     if op == "c01.tokenize":
         return ["tokenize tokens=%s" % (len(m[0]) if len(m[0]) <= 3 else ">3")]
+    if op == "c01.history":
+        return ["history steps=%d" % len(c["payload"][1])] + ["history step kind %d" % st[0] for st in c["payload"][1]]
     if op == "c01.parse_text":
         pl = c["payload"]
         verdict = "ok" if m[0][0] == 0 else "error%d" % m[0][1]
@@ -584,6 +722,10 @@ def describe(c):
                 "orders": pl[5], "multiplicity": pl[6]}
     if op == "c01.tokenize":
         return {"op": op, "ballot_text": U(pl)}
+    if op == "c01.history":
+        return {"op": op, "start": describe({"op": "c01.file", "payload": pl[0]}),
+                "steps": [{0: "set multiplicities", 1: "append_order_list", 2: "append_order", 3: "parse_file(last file)"}[st[0]]
+                          + (" " + repr(st[1]) if len(st) > 1 else "") for st in pl[1]]}
     if op == "c01.parse_text":
         d = {"op": op, "autocorrect": pl[0], "header_only": pl[1], "entry": ["parse_file", "parse_str"][pl[2]],
              "data_type": U(pl[3])}
@@ -614,6 +756,10 @@ def shrink(c):
     elif op == "c01.tokenize":
         for k in range(len(pl)):
             yield dict(c, payload=pl[:k] + pl[k + 1:])
+    elif op == "c01.history":
+        base, steps = pl
+        for k in range(len(steps)):
+            yield dict(c, payload=[base, steps[:k] + steps[k + 1:]])
     elif op == "c01.parse_text" and len(pl) == 5:
         s = U(pl[4])
         ls = s.splitlines(True)
